@@ -750,7 +750,20 @@ pub fn json_diagram_sized(d: &mut Decider, large: bool) -> GSpec {
         g = g.without_vertex(v);
     }
     // coordinates (large diagrams always get unique ones: the isomorphism search needs anchors)
-    match if large { 5 } else { d.choose("j.coord", 6) } {
+    match if large { 5 } else { d.choose("j.coord", 8) } {
+        6 => {
+            // fine-grained coordinates: thirds, sevenths, six decimals, tiny offsets
+            for (i, v) in g.verts.iter_mut().enumerate() {
+                v.3 = i as f64 + d.range("j.t3", 0, 2) as f64 / 3.0 + d.range("j.t7", 0, 6) as f64 / 7.0;
+                v.4 = -(i as f64) * 1.5 + d.range("j.m6", 0, 999_999) as f64 * 1e-6;
+            }
+        }
+        7 => {
+            for (i, v) in g.verts.iter_mut().enumerate() {
+                v.3 = (i as f64) * 1e-4 + d.range("j.e4", 1, 9) as f64 * 1e-5;
+                v.4 = 1.0 / (3.0 + i as f64);
+            }
+        }
         0 => {} // all (0,0): maximal collisions
         1 => {
             for (i, v) in g.verts.iter_mut().enumerate() {
